@@ -1209,3 +1209,44 @@ mutant("cfg6-strtobool-zero-true", "C20", CONF, """    elif s in ("false", "0"):
         return False
     elif s.isdigit():
         return bool(s)""", "CFG-6")
+# ---- round 9 ------------------------------------------------------------------------------------
+mutant("sgr3-deduction-unsat-keeps-earlier-facts", ["C03", "C02"], SUGAR, """        out = self._call_solver(csp_description).split("\\n")
+        for v in self.variables:
+            v.sol = None
+
+        if "unsat" in out[0]:""", """        out = self._call_solver(csp_description).split("\\n")
+
+        if "unsat" in out[0]:""", "SGR-3")
+variant("sgr3-deduction-reset-after-unsat-test", ["C03", "C02"], SUGAR, """        out = self._call_solver(csp_description).split("\\n")
+        for v in self.variables:
+            v.sol = None
+
+        if "unsat" in out[0]:
+            return False
+""", """        out = self._call_solver(csp_description).split("\\n")
+
+        if "unsat" in out[0]:
+            for v in self.variables:
+                v.sol = None
+            return False
+""", "the reset may move into the unsat branch: the sat branch assigns every variable anyway")
+mutant("z3m-unknown-verdict-as-unsat", ["C01", "C02"], Z3, "        if solver.check() == z3.unsat:", "        if solver.check() != z3.sat:", "Z3M-3")
+variant("z3m-verdict-kept-in-local", ["C01", "C02"], Z3, """        if solver.check() == z3.unsat:
+            return False
+""", """        verdict = solver.check()
+        if verdict == z3.unsat:
+            return False
+""", "the verdict may be named")
+mutant("agg-four-neighbor-indices-memoised", "C12", ARRAY, """def _four_neighbor_indices(
+    shape: Tuple[int, int], y: Union[int, Tuple[int, int]], x: Optional[int]
+) -> List[Tuple[int, int]]:""", """@functools.lru_cache(maxsize=None)
+def _four_neighbor_indices(
+    shape: Tuple[int, int], y: Union[int, Tuple[int, int]], x: Optional[int]
+) -> List[Tuple[int, int]]:""", "AGG")
+mutant("rt-grid-serialize-forwards-position", "C15", SER, "        tmp = seq_combinator.serialize(env, [d_flat], 0)", "        tmp = seq_combinator.serialize(env, [d_flat], idx)", "RT-GRID")
+mutant("exc-grid-serialize-forwards-position", "C17", SER, "        tmp = seq_combinator.serialize(env, [d_flat], 0)", "        tmp = seq_combinator.serialize(env, [d_flat], idx)", "EXC-7")
+mutant("rt-valued-rooms-values-at-relative-offset", "C15", SER, "        values_res = value_combinator.deserialize(env, data, idx + ofs)", "        values_res = value_combinator.deserialize(env, data, ofs)", "RT-ROOMS")
+mutant("exc-valued-rooms-values-at-relative-offset", "C17", SER, "        values_res = value_combinator.deserialize(env, data, idx + ofs)", "        values_res = value_combinator.deserialize(env, data, ofs)", "EXC-7")
+mutant("ench-connected-tie-by-stored-direction", "C04", GRAPH, """        less_ranks = [((ranks[j] < ranks[i]) & is_active[j]) for j, _ in graph.incident_edges[i]]""", """        less_ranks = [(((ranks[j] < ranks[i]) if graph.edges[e][1] == i else ~(ranks[i] < ranks[j])) & is_active[j]) for j, e in graph.incident_edges[i]]""", "ENC-S")
+variant("ench-connected-strict-written-as-negated-ge", "C04", GRAPH, """        less_ranks = [((ranks[j] < ranks[i]) & is_active[j]) for j, _ in graph.incident_edges[i]]""", """        less_ranks = [((~(ranks[j] >= ranks[i])) & is_active[j]) for j, _ in graph.incident_edges[i]]""", "~(a >= b) is a < b")
+mutant("cfg-sugar-extended-derives-from-sugar", ["C20", "C02"], SUGAR, "class SugarExtendedBackend(SugarLikeBackend):", "class SugarExtendedBackend(SugarBackend):", "REF-6")
